@@ -1127,11 +1127,21 @@ def rule_r13(repo, run):
                     if isinstance(a, ast.Assign) and pyflow.is_name(a.targets[0], avname) and a.lineno < c.lineno:
                         av = a.value
             text = str(gm.seg(av)) if av is not None else ""
-            ok = av is not None and re.search(r"value\s*=\s*True|'value':\s*True", text) is not None
+            # by value exactly when the declaration the parameter is rendered from is not a pointer / reference:
+            # `value=True` is right for a declaration known to be a value, `value=not <decl>.is_indirect()` in general
+            mv = re.search(r"(?:value\s*=|'value':)\s*(not \w+(?:\.\w+)*\.is_indirect\(\)|True|False|None|[\w.]+)", text)
+            val = mv.group(1).strip() if mv else None
+            srcs = set()
+            for a in ast.walk(fn):
+                if isinstance(a, ast.Call) and isinstance(a.func, ast.Attribute) and a.func.attr == "gen_arg_as_c":
+                    srcs.add(str(gm.seg(a.func.value)))
+            cond = any(val == "not %s.is_indirect()" % src for src in srcs) if val else False
+            ok = av is not None and (cond or val == "True" and not srcs)
             run.check(R, "generate.%s:add_function(%s):value" % (q, re.sub(r"\s+", "", template)[:30]), ok,
                       "the generated function takes its argument by value (declaration `%s` from gen_arg_as_c) but its attrs %s "
-                      "do not set value=True: VerifyAttrs has already run, so the Fortran interface passes the argument by "
-                      "reference while the C wrapper takes it by value" % (template, text[:60] or "are missing"), gm.loc(c))
+                      "do not set `value` to whether the member is a value (`not <decl>.is_indirect()`): VerifyAttrs has already "
+                      "run, so a value member is passed by reference, or a pointer member (`int *tags`) as `integer, value` "
+                      "where C takes `int *`" % (template, text[:60] or "are missing"), gm.loc(c))
     run.floor(R, "generated functions with a by-value parameter", n, 1)
 
 
